@@ -266,45 +266,121 @@ pub fn extract_graph(g: &resolvo::conflict::ConflictGraph) -> Graph {
     out
 }
 
-/// One solve on a fresh solver.
-pub fn run_case(u: &Universe, p: &Problem, cfg: &RunCfg) -> RunResult {
-    let mut prov = Prov::new(u);
-    prov.cancel = cfg.cancel;
-    prov.sort_cb = cfg.sort_cb;
-    prov.hint_override = cfg.hint_override.clone();
-    prov.logging = cfg.log;
-    let log = prov.log.clone();
-    match &cfg.runtime {
-        Runtime::Sync => {
-            let mut solver = Solver::new(prov);
-            if let Some((a, d)) = cfg.activity {
-                solver = solver.with_activity_params(a, d);
+pub enum SolverKind<'u> {
+    Sync(Solver<Prov<'u>>),
+    Async(Solver<Prov<'u>, CtlRuntime>),
+}
+
+/// One solver instance that can be asked to solve several problems in a row.
+pub struct Session<'u> {
+    pub solver: SolverKind<'u>,
+    pub log: Rc<RefCell<Vec<Ev>>>,
+    pub ctl: Option<Rc<Controller>>,
+    pub cfg: RunCfg,
+}
+
+impl<'u> Session<'u> {
+    pub fn new(u: &'u Universe, cfg: &RunCfg) -> Self {
+        let mut prov = Prov::new(u);
+        prov.cancel.set(cfg.cancel);
+        prov.sort_cb = cfg.sort_cb;
+        prov.hint_override = cfg.hint_override.clone();
+        prov.logging = cfg.log;
+        let log = prov.log.clone();
+        match &cfg.runtime {
+            Runtime::Sync => {
+                let mut solver = Solver::new(prov);
+                if let Some((a, d)) = cfg.activity {
+                    solver = solver.with_activity_params(a, d);
+                }
+                Session {
+                    solver: SolverKind::Sync(solver),
+                    log,
+                    ctl: None,
+                    cfg: cfg.clone(),
+                }
             }
-            finish(&mut solver, p, cfg, log, None)
-        }
-        Runtime::Async {
-            mask,
-            prefix,
-            lifo,
-            pairs,
-        } => {
-            let ctl = Controller::new(
-                prefix.clone(),
-                if *lifo { Policy::Lifo } else { Policy::Fifo },
-                *pairs,
-            );
-            if cfg.log {
-                *ctl.log.borrow_mut() = Some(log.clone());
+            Runtime::Async {
+                mask,
+                prefix,
+                lifo,
+                pairs,
+            } => {
+                let ctl = Controller::new(
+                    prefix.clone(),
+                    if *lifo { Policy::Lifo } else { Policy::Fifo },
+                    *pairs,
+                );
+                if cfg.log {
+                    *ctl.log.borrow_mut() = Some(log.clone());
+                }
+                prov.ctl = Some(ctl.clone());
+                prov.mask = *mask;
+                let mut solver = Solver::new(prov).with_runtime(CtlRuntime(ctl.clone()));
+                if let Some((a, d)) = cfg.activity {
+                    solver = solver.with_activity_params(a, d);
+                }
+                Session {
+                    solver: SolverKind::Async(solver),
+                    log,
+                    ctl: Some(ctl),
+                    cfg: cfg.clone(),
+                }
             }
-            prov.ctl = Some(ctl.clone());
-            prov.mask = *mask;
-            let mut solver = Solver::new(prov).with_runtime(CtlRuntime(ctl.clone()));
-            if let Some((a, d)) = cfg.activity {
-                solver = solver.with_activity_params(a, d);
-            }
-            finish(&mut solver, p, cfg, log, Some(ctl))
         }
     }
+    pub fn provider(&self) -> &Prov<'u> {
+        match &self.solver {
+            SolverKind::Sync(s) => s.provider(),
+            SolverKind::Async(s) => s.provider(),
+        }
+    }
+    /// One `solve` call: cancellation plan and schedule prefix apply to this call only.
+    pub fn solve(&mut self, p: &Problem, cancel: CancelPlan, prefix: Vec<u32>) -> RunResult {
+        self.provider().cancel.set(cancel);
+        self.provider().polls.set(0);
+        if let Some(c) = &self.ctl {
+            c.reset_schedule(prefix);
+        }
+        let cfg = self.cfg.clone();
+        let (outcome, rendered, render_panic) = match &mut self.solver {
+            SolverKind::Sync(s) => solve_on(s, p, &cfg),
+            SolverKind::Async(s) => solve_on(s, p, &cfg),
+        };
+        let dump = if cfg.dump && !matches!(outcome, Outcome::Panic(_) | Outcome::Deadlock | Outcome::Horizon) {
+            match &self.solver {
+                SolverKind::Sync(s) => guarded("dump", || s.verif_dump()).ok(),
+                SolverKind::Async(s) => guarded("dump", || s.verif_dump()).ok(),
+            }
+        } else {
+            None
+        };
+        let polls = self.provider().polls.get();
+        let (trace, max_parked) = match &self.ctl {
+            Some(c) => (c.trace.borrow().clone(), c.max_parked.get()),
+            None => (vec![], 0),
+        };
+        let log = std::mem::take(&mut *self.log.borrow_mut());
+        RunResult {
+            outcome,
+            rendered,
+            render_panic,
+            log,
+            polls,
+            dump,
+            trace,
+            max_parked,
+        }
+    }
+}
+
+/// One solve on a fresh solver.
+pub fn run_case(u: &Universe, p: &Problem, cfg: &RunCfg) -> RunResult {
+    let prefix = match &cfg.runtime {
+        Runtime::Async { prefix, .. } => prefix.clone(),
+        _ => vec![],
+    };
+    Session::new(u, cfg).solve(p, cfg.cancel, prefix)
 }
 
 pub fn solve_on<RT: resolvo::runtime::AsyncRuntime>(
@@ -392,33 +468,3 @@ pub fn solve_on<RT: resolvo::runtime::AsyncRuntime>(
     (outcome, rendered, render_panic)
 }
 
-fn finish<RT: resolvo::runtime::AsyncRuntime>(
-    solver: &mut Solver<Prov<'_>, RT>,
-    p: &Problem,
-    cfg: &RunCfg,
-    log: Rc<RefCell<Vec<Ev>>>,
-    ctl: Option<Rc<Controller>>,
-) -> RunResult {
-    let (outcome, rendered, render_panic) = solve_on(solver, p, cfg);
-    let dump = if cfg.dump && !matches!(outcome, Outcome::Panic(_) | Outcome::Deadlock | Outcome::Horizon) {
-        guarded("dump", || solver.verif_dump()).ok()
-    } else {
-        None
-    };
-    let polls = solver.provider().polls.get();
-    let (trace, max_parked) = match &ctl {
-        Some(c) => (c.trace.borrow().clone(), c.max_parked.get()),
-        None => (vec![], 0),
-    };
-    let log = std::mem::take(&mut *log.borrow_mut());
-    RunResult {
-        outcome,
-        rendered,
-        render_panic,
-        log,
-        polls,
-        dump,
-        trace,
-        max_parked,
-    }
-}
